@@ -68,3 +68,29 @@ Theorem C02_raw_order_refuted :
   exists b, parse (s2l "f(a: 1, b)") = Ok b /\ order_ok_block b = false.
 Proof. exact order_error_accepted. Qed.
 Print Assumptions C02_raw_order_refuted.
+
+(* Extents.  mparser.py records for a function call the position of its name token and
+   (line, column + 1) of its ')' token, for an array literal the position of '[' and
+   (line, column + 1) of ']'.  For ANY run of consecutive tokens first..last of an accepted
+   text: the position recorded in [first] is the point where the run's text starts ... *)
+From MV Require Import Syntax.ExtentFacts.
+Theorem C02_extent_start : forall s pre first rest post,
+  lex s = LOk (pre ++ (first :: rest) ++ post) ->
+  let P := texts pre in
+  s = P ++ texts (first :: rest) ++ texts post /\
+  tline first = line_of P /\ tcol first = col_of P /\ tstart first = N.of_nat (length P).
+Proof. exact run_start. Qed.
+Print Assumptions C02_extent_start.
+(* ... (line, column + 1) of a one-character closing token is the point where it ends ... *)
+Theorem C02_extent_end : forall s pre mid last post c,
+  lex s = LOk (pre ++ (mid ++ [last]) ++ post) -> ttext last = [c] -> c <> c_nl ->
+  let E := texts pre ++ texts (mid ++ [last]) in
+  s = E ++ texts post /\ line_of E = tline last /\ col_of E = tcol last + 1.
+Proof. exact run_end. Qed.
+Print Assumptions C02_extent_end.
+(* ... and a (line, column) pair denotes at most one point of the text, so the two recorded
+   positions delimit exactly the text of the run (what source-editing tools splice on). *)
+Theorem C02_point_unique : forall p1 d : str,
+  line_of p1 = line_of (p1 ++ d) -> col_of p1 = col_of (p1 ++ d) -> d = [].
+Proof. exact point_unique. Qed.
+Print Assumptions C02_point_unique.
